@@ -3,10 +3,15 @@ Model of `IceConn::receive` address/latching logic and the latch API
 (`src/transports/ice/conn.rs`).  Core Lean only (no Mathlib): this file is
 linked into the `rtcdrv` executable.
 
-The model follows the code statement by statement; in particular the value
-`current_remote` is read ONCE at the top of `receive` and the later writes to
-`remote_addr` are guarded by comparisons against that stale copy, exactly as
-the Rust does.
+The model follows the code statement by statement (one atomic step per call; the interleaving
+of a call with a concurrent `receive` is `RtcModel.LatchRace`).
+
+Round 2: the model follows three `fix:` commits of the latch agent —
+(1) the unconditional adoption at the top of `receive` is skipped while latching is enabled,
+(2) rule 2 is evaluated before rule 3 (the documented order),
+(3) `set_expected_ssrc` with a changed value restarts the probation window,
+(4) latch state changes happen under the probation mutex and `receive` re-reads the destination there.
+Byte offsets, the marker mask and the counter widths are generated constants.
 -/
 import RtcModel.Generated.Consts
 
@@ -53,8 +58,16 @@ def init (remote : Addr) (maxp : Nat) (tcp : Bool) : St :=
   { remote, rtcpRemote := none, latchOn := false, rtpLatched := false,
     rtcpLatched := false, expected := 0, maxPackets := maxp, prob := none, tcp }
 
-def satAdd8 (x : Nat) : Nat := if x ≥ 255 then 255 else x + 1
-def wrapAdd16 (x : Nat) : Nat := (x + 1) % 65536
+/-- ceilings of the saturating counters (`u8::MAX` for the generated field widths) -/
+def totalMax : Nat := 2 ^ probTotalBits - 1
+def countMax : Nat := 2 ^ candCountBits - 1
+def consecMax : Nat := 2 ^ candConsecBits - 1
+def seqMod : Nat := 2 ^ candSeqBits
+
+/-- `saturating_add(1)` with ceiling `m` -/
+def satInc (m x : Nat) : Nat := if x ≥ m then m else x + 1
+/-- `u16::wrapping_add(1)` -/
+def wrapInc (x : Nat) : Nat := (x + 1) % seqMod
 
 /-- What `receive` reads out of the packet bytes. -/
 inductive Kind where
@@ -62,28 +75,32 @@ inductive Kind where
   | other                       -- first byte in none of the ranges
   | dtls
   | rtcp
-  | rtpShort                    -- RTP range, not RTCP, fewer than 12 bytes
+  | rtpShort                    -- RTP range, not RTCP, shorter than the latching minimum
   | rtp (ssrc seq ts : Nat) (marker : Bool)
 deriving DecidableEq, Repr
 
-def be16 (a b : UInt8) : Nat := a.toNat * 256 + b.toNat
-def be32 (a b c d : UInt8) : Nat := ((a.toNat * 256 + b.toNat) * 256 + c.toNat) * 256 + d.toNat
+/-- `packet[i]`; only used below indices that the length tests guarantee (theorem
+`const_layout` in `Theorems/C18.lean`), so the default is never observed. -/
+def byteAt (p : List UInt8) (i : Nat) : Nat := (p.getD i 0).toNat
+
+/-- big-endian read of `n` bytes starting at `off` -/
+def beAt (p : List UInt8) (off : Nat) : Nat → Nat
+  | 0 => 0
+  | n + 1 => beAt p off n * 256 + byteAt p (off + n)
 
 def classify (p : List UInt8) : Kind :=
   match p with
   | [] => .empty
-  | b0 :: rest =>
+  | b0 :: _ =>
     if dtlsLo ≤ b0.toNat ∧ b0.toNat < dtlsHi then .dtls
     else if rtpLo ≤ b0.toNat ∧ b0.toNat < rtpHi then
-      match rest with
-      | b1 :: r2 =>
-        if rtcpPtLo ≤ b1.toNat ∧ b1.toNat ≤ rtcpPtHi then .rtcp
-        else
-          match r2 with
-          | s0 :: s1 :: t0 :: t1 :: t2 :: t3 :: c0 :: c1 :: c2 :: c3 :: _ =>
-            .rtp (be32 c0 c1 c2 c3) (be16 s0 s1) (be32 t0 t1 t2 t3) (b1.toNat ≥ 128)
-          | _ => .rtpShort
-      | [] => .rtpShort
+      if p.length ≥ latchRtcpMinLen ∧ rtcpPtLo ≤ byteAt p latchRtcpPtOff ∧ byteAt p latchRtcpPtOff ≤ rtcpPtHi then .rtcp
+      else if p.length ≥ latchMinRtpLen then
+        .rtp (beAt p latchSsrcOff (latchSsrcEnd + 1 - latchSsrcOff))
+             (beAt p latchSeqOff (latchSeqEnd + 1 - latchSeqOff))
+             (beAt p latchTsOff (latchTsEnd + 1 - latchTsOff))
+             (byteAt p latchMarkerOff &&& latchMarkerMask != 0)
+      else .rtpShort
     else .other
 
 /-- Which upper-layer receiver slot the packet is forwarded to. -/
@@ -98,9 +115,9 @@ def fwdOf : Kind → Fwd
 /-- update-or-push of the candidate table -/
 def updCand (c : Cand) (seq ts : Nat) (marker : Bool) : Cand :=
   { c with
-    consecutive := if seq = wrapAdd16 c.lastSeq then satAdd8 c.consecutive else 0
+    consecutive := if seq = wrapInc c.lastSeq then satInc consecMax c.consecutive else 0
     lastSeq := seq
-    packetCount := satAdd8 c.packetCount
+    packetCount := satInc countMax c.packetCount
     hasMarker := c.hasMarker || marker
     firstTs := if ts < c.firstTs then ts else c.firstTs
     firstSeq := if seq < c.firstSeq then seq else c.firstSeq }
@@ -137,18 +154,26 @@ def maxByRule3 : List Cand → Option Cand
     | none => some c
     | some m => if rule3Gt c m then some c else some m
 
+/-- `run_winner`: `if total >= 3 { candidates.iter().find(|c| c.consecutive_count >= 2) } else { None }` -/
+def runWinner (p : Prob) : Option Cand :=
+  if p.total ≥ probationRule2MinTotal then
+    p.cands.find? (fun c => c.consecutive ≥ probationRule2MinConsecutive)
+  else none
+
+/-- the decision taken after every probation packet (branch order of the code after the
+rule-order fix: marker, run, timeout) -/
 def winner (p : Prob) : Option Addr :=
   match minByFirstSeq (p.cands.filter (·.hasMarker)) with
   | some mw => some mw.addr
   | none =>
-    if p.total ≥ p.max then (maxByRule3 p.cands).map (·.addr)
-    else if p.total ≥ probationRule2MinTotal then
-      (p.cands.find? (fun c => c.consecutive ≥ probationRule2MinConsecutive)).map (·.addr)
-    else none
+    match runWinner p with
+    | some rw => some rw.addr
+    | none => if p.total ≥ p.max then (maxByRule3 p.cands).map (·.addr) else none
 
-/-- top of `receive`: port-0 adoption / inbound-TCP adoption (`cur` = `current_remote`). -/
+/-- top of `receive`: adoption of the packet source while the destination is unset (port 0) or
+on an accepted TCP stream — only while latching is NOT enabled (`cur` = `current_remote`). -/
 def adopt (s : St) (addr : Addr) : St :=
-  if s.remote.port = 0 ∨ (s.tcp ∧ s.remote ≠ addr) then { s with remote := addr } else s
+  if ¬ s.latchOn ∧ (s.remote.port = 0 ∨ (s.tcp ∧ s.remote ≠ addr)) then { s with remote := addr } else s
 
 /-- the `is_rtcp` arm under `latch_on_rtp` -/
 def rtcpLearn (s1 : St) (addr : Addr) : St :=
@@ -167,12 +192,14 @@ def moveTo (s1 : St) (cur addr : Addr) : St :=
 def commitTo (s2 : St) (addr w : Addr) : St :=
   if w ≠ addr then { s2 with remote := w } else s2
 
-/-- the RTP arm (`!rtp_latched && len >= 12`), `cur` is the stale `current_remote` copy -/
+/-- the RTP arm (`!rtp_latched && len >= 12`); `cur` is `current_remote`, which since the
+lock-discipline fix is re-read under the probation mutex (it used to be the copy taken at the
+top of `receive`, before the adoption) -/
 def rtpLatch (s1 : St) (cur addr : Addr) (ssrc seq ts : Nat) (marker : Bool) : St :=
   if s1.latchOn ∧ ¬ s1.rtpLatched ∧ (s1.expected = 0 ∨ ssrc = s1.expected) then
     match s1.prob with
     | some p =>
-      let p1 : Prob := { p with total := satAdd8 p.total, cands := observe p.cands addr seq ts marker }
+      let p1 : Prob := { p with total := satInc totalMax p.total, cands := observe p.cands addr seq ts marker }
       let s2 := moveTo s1 cur addr
       match winner p1 with
       | some w =>
@@ -186,7 +213,7 @@ def receive (s : St) (addr : Addr) (k : Kind) : St :=
   match k with
   | .empty => s
   | .rtcp => rtcpLearn (adopt s addr) addr
-  | .rtp ssrc seq ts marker => rtpLatch (adopt s addr) s.remote addr ssrc seq ts marker
+  | .rtp ssrc seq ts marker => rtpLatch (adopt s addr) (adopt s addr).remote addr ssrc seq ts marker
   | _ => adopt s addr
 
 def freshProb (s : St) : Option Prob :=
@@ -210,6 +237,12 @@ def setFromPair (s : St) (a : Addr) : St :=
 
 def setRtcpAddr (s : St) (a : Option Addr) : St := { s with rtcpRemote := a, rtcpLatched := false }
 
+/-- `set_expected_ssrc`: a changed expectation restarts the probation window (keeps its size) -/
+def setExpectedSsrc (s : St) (v : Nat) : St :=
+  if s.expected ≠ v then
+    { s with expected := v, prob := s.prob.map (fun p => { p with cands := [], total := 0 }) }
+  else s
+
 inductive Op where
   | pkt (addr : Addr) (k : Kind)
   | enable
@@ -227,10 +260,19 @@ def step (s : St) : Op → St
   | .reset => resetLatch s
   | .sig a => setFromSignaling s a
   | .pair a => setFromPair s a
-  | .ssrc v => { s with expected := v }
+  | .ssrc v => setExpectedSsrc s v
   | .maxp v => { s with maxPackets := v }
   | .rtcpAddr a => setRtcpAddr s a
 
 def run (s : St) (ops : List Op) : St := ops.foldl step s
+
+/-- Structural tie: the number of `remote_addr.write()` sites in the non-test part of each source
+file that this model accounts for — `conn.rs`: `set_remote_addr_from_selected_pair` (`setFromPair`),
+`set_remote_addr_from_signaling` (`setFromSignaling`), and in `receive` the adoption (`adopt`), the
+probation move and the immediate-latch move (`moveTo`) and the commit write (`commitTo`).
+Every other file: none (all callers go through the two setters). The harness counts the sites in
+the source tree on every run. -/
+def modelledWriters (file : String) : Option Nat :=
+  if file = "src/transports/ice/conn.rs" then some 6 else some 0
 
 end RtcModel.Latch
